@@ -38,7 +38,12 @@ import (
 	"context"
 	"encoding/binary"
 	"fmt"
+	"github.com/ozontech/seq-db/pkg/seqproxyapi/v1"
+	"google.golang.org/grpc"
+	"google.golang.org/grpc/credentials/insecure"
+	"google.golang.org/protobuf/types/known/timestamppb"
 	"os"
+	"path/filepath"
 	"sort"
 	"strconv"
 	"strings"
@@ -105,6 +110,10 @@ type Case struct {
 	// keyword field) when the mapping provider switches to the case's mapping - a hot reload
 	// of the mapping file - and the document arrives
 	Reload bool `json:"reload,omitempty"`
+	// Bin: after the in-process run the same mapping file, flags and document go through the real
+	// executable in single mode (--mapping, --case-sensitive, --partial-indexing, --max-token-size);
+	// every query that has to find the document by the reference must find it there too
+	Bin bool `json:"bin,omitempty"`
 	// Excluded counts generator draws replaced because of a known finding.
 	Excluded int `json:"excluded,omitempty"`
 }
@@ -850,7 +859,7 @@ func (r *runner) must(what string, o *occ, text string, qkind, st int) error {
 			o.Type, o.Title, o.Size, r.c.CS, r.c.Partial, r.c.MaxTok, short(string(o.Val)), short(text), short(q.Root.SeqQLString()),
 			o.Title, fmtToks(r.tokensUnder(o.Title, o.Meta)))
 	}
-	if r.c.E2E {
+	if r.c.E2E || r.c.Bin {
 		r.queries = append(r.queries, built{what, text, q.Root})
 	}
 	return nil
@@ -1279,6 +1288,13 @@ func runCase(c Case) (evid.Result, error) {
 		}
 	}
 
+	// 8. end to end through the real executable
+	if c.Bin && len(r.queries) > 0 {
+		r.lab["binary"] = true
+		if err := r.throughBinary(y, doc.Bytes()); err != nil {
+			return finish(), err
+		}
+	}
 	// 7. end to end through a real store
 	if c.E2E && len(r.queries) > 0 {
 		r.lab["e2e"] = true
@@ -1327,6 +1343,83 @@ func (r *runner) endToEnd(cp *capture, id seq.ID) error {
 	}
 	st.Seal()
 	return search("sealed")
+}
+
+// throughBinary: the mapping file and the configuration reach the tokenizers and the parser through
+// the wiring of package main; what the in-process ingestor was given as struct fields is given
+// here as command-line flags.
+func (r *runner) throughBinary(mappingYAML, doc []byte) error {
+	dir := evid.ScratchDir("c11bin")
+	defer os.RemoveAll(dir)
+	data := filepath.Join(dir, "data")
+	if err := os.MkdirAll(data, 0o755); err != nil {
+		return err
+	}
+	mfile := filepath.Join(dir, "mapping.yaml")
+	if err := os.WriteFile(mfile, mappingYAML, 0o644); err != nil {
+		return err
+	}
+	flags := []string{"--mode=single", "--mapping=" + mfile, "--data-dir=" + data, "--query-rate-limit=100000", "--use-seq-ql-by-default",
+		"--max-document-size=4MiB", fmt.Sprintf("--max-token-size=%d", r.c.MaxTok), "--allowed-time-drift=24h", "--future-allowed-time-drift=24h",
+		"--frac-size=16MB", "--total-size=256MB", "--cache-size=64MB"}
+	if r.c.CS {
+		flags = append(flags, "--case-sensitive")
+	}
+	if r.c.Partial {
+		flags = append(flags, "--partial-indexing")
+	}
+	b, err := harness.StartBinary(flags...)
+	if err != nil {
+		return evid.Failf("bin-no-start", "%v", err)
+	}
+	defer b.Kill()
+	code, rb, err := b.PostBulk(append(append([]byte("{\"index\":{}}\n"), doc...), '\n'))
+	if err != nil || code != 200 {
+		if !b.Alive() {
+			return evid.Failf("bin-died", "seq-db died while handling the bulk: %s", b.Tail())
+		}
+		return evid.Failf("bin-bulk", "bulk of the document answered %d %s (%v)", code, short(string(rb)), err)
+	}
+	conn, err := grpc.NewClient(b.GRPCAddr, grpc.WithTransportCredentials(insecure.NewCredentials()))
+	if err != nil {
+		return err
+	}
+	defer conn.Close()
+	api := seqproxyapi.NewSeqProxyApiClient(conn)
+	cfg := fmt.Sprintf("--case-sensitive=%v --partial-indexing=%v --max-token-size=%d", r.c.CS, r.c.Partial, r.c.MaxTok)
+	first := true
+	for _, q := range r.queries {
+		if !utf8.ValidString(q.text) {
+			r.lab["binary:query-not-utf8-skipped"] = true
+			continue // a gRPC string field cannot carry it
+		}
+		deadline := time.Now().Add(30 * time.Second)
+		for {
+			ctx, cancel := context.WithTimeout(context.Background(), 30*time.Second)
+			resp, err := api.Search(ctx, &seqproxyapi.SearchRequest{
+				Query: &seqproxyapi.SearchQuery{Query: q.text, From: timestamppb.New(time.Unix(0, 0)), To: timestamppb.New(time.Now().Add(48 * time.Hour))}, Size: 10,
+			})
+			cancel()
+			if err != nil {
+				if !b.Alive() {
+					return evid.Failf("bin-died", "[%s] seq-db died while searching %s: %s", cfg, short(q.text), b.Tail())
+				}
+				return evid.Failf("bin-search-error"+colonTag(r.c), "[%s] query %s: %v", cfg, short(q.text), err)
+			}
+			if len(resp.Docs) > 0 {
+				break
+			}
+			// the first query may race the indexing of the bulk; later ones may not
+			if !first || time.Now().After(deadline) {
+				return evid.Failf("bin-"+q.what+"-miss"+colonTag(r.c), "[%s] the executable started with these flags does not find the document by %s, which matches the tokens the ingestor emits for this configuration", cfg, short(q.text))
+			}
+			time.Sleep(10 * time.Millisecond)
+		}
+		first = false
+		r.res.Evals++
+	}
+	b.Stop()
+	return nil
 }
 
 func TestProp(t *testing.T) {
